@@ -1,5 +1,6 @@
 """C02 — comparison and hashing of time points follow the timeline."""
 from . import ALL_MODES, T1_CAL, TICK, ADD_EXACT, REZONE, CAL_LEMMAS
+from . import tp_bounded
 
 ID = "C02"
 LEVEL = "proof"
@@ -36,9 +37,19 @@ EXPLANATION = (
     "Trichotomy, symmetry, complementarity, unions, transitivity, equal=>equal-hash and "
     "sign(a-b) are ghost programs proved over those contracts. Quick tier: 27 of the 81 "
     "shape pairs per operator (every date pair x every time-form pair); thorough: all 81.")
-ASSUMPTIONS = ["Python's default __ne__ negates __eq__ (language rule)",
+ASSUMPTIONS = ["the bounded grid `timepoint.same-instant-spellings` adds nothing on a tree where "
+               "every obligation is discharged; it is there for changed code that leaves the "
+               "verifier's reach (a rewritten __hash__ / _cmp with a loop that has no "
+               "invariant is reported `undecided` by the proof part)",
+               "Python's default __ne__ negates __eq__ (language rule)",
                "hash() is an uninterpreted function with congruence (equal argument tuples => equal hash)"]
 LEVEL_TEXT = ("Proof of result <=> instant order for all field values, offsets, years and "
               "modes, 24:00 included; order laws as lemmas over the contract.")
 LEVEL_NOTE = ("Floats as reals; PyVC/z3/cvc5 trusted; quick tier proves a covering subset "
               "of shape pairs, thorough all of them.")
+
+
+def bounded(tier, seed, repo):
+    """Safety net for a changed tree on which _cmp / __hash__ has fallen out of the
+    verifier's reach (the proof then says `undecided`); never counted as proved."""
+    return tp_bounded.check_c02(tier, seed, repo)
